@@ -458,7 +458,7 @@ OBS_FACETS = {"get": "Get", "kv": "GetKV", "has": "Contains", "lpm": "Lpm", "spm
               "lpmp": "Lpm", "spmp": "Spm", "ck": "Cover", "cv": "Cover"}
 # inconsistencies the harness detects itself (twin APIs that disagree, runaway iteration); a line carrying
 # one is a disagreement by itself and must not reach TLC (mixed types cannot be compared there)
-MARKERS = ["VARIANTS-DIFFER", "ITER-KINDS-DIFFER", "KIND-VACANT", "KIND-OCCUPIED", "MUT-DIFFERS", "LEFT-DIFFERS", "VIEW_AT-DIFFERS", "EQ-INCONSISTENT", "DEPTH", "EXTRA",
+MARKERS = ["SET-DIFFERS", "VARIANTS-DIFFER", "ITER-KINDS-DIFFER", "KIND-VACANT", "KIND-OCCUPIED", "MUT-DIFFERS", "LEFT-DIFFERS", "VIEW_AT-DIFFERS", "EQ-INCONSISTENT", "DEPTH", "EXTRA",
            "DIVERGED", "keys_values_differ", "prefix_value_differs", "as_view_differs", "has_side_differs", "accessors_differ"]
 
 
